@@ -1,7 +1,7 @@
 #!/bin/sh
-# usage: confirm_all.sh <PROP> [extra check props]   - sequentially confirms out/change_* of /tmp/wt/<PROP>
-P=$1; shift
-for d in /tmp/wt/$P/out/change_*; do
+# usage: confirm_all.sh <PROP> <outdir-name> [extra check props]  - sequentially confirms <outdir>/change_* of /tmp/wt/<PROP>
+P=$1; O=$2; shift; shift
+for d in /tmp/wt/$P/$O/change_*; do
   /verif/tools/confirm_seeded.py $P /tmp/wt/$P $d $P "$@" > $d/confirm.json 2>$d/confirm.err
 done
-echo done > /tmp/wt/$P/out/confirm_done
+echo done > /tmp/wt/$P/$O/confirm_done
